@@ -6,6 +6,7 @@ import (
 	"encoding/json"
 	"fmt"
 	"math/rand"
+	"runtime/debug"
 	"sort"
 	"strings"
 
@@ -140,13 +141,19 @@ func tthDecode(w *TraceWriter, in []byte, seeds []int, shapes int) {
 		var p2 ttheader.DecodeParam
 		var err2 error
 		pan2 := false
+		gin := guardCopy(in) // exact capacity, flush against a PROT_NONE page
+		if gin == nil {
+			gin = in
+		}
 		func() {
+			old := debug.SetPanicOnFault(true)
+			defer debug.SetPanicOnFault(old)
 			defer func() {
 				if r := recover(); r != nil {
 					pan2 = true
 				}
 			}()
-			p2, err2 = ttheader.DecodeFromBytes(ctx, in)
+			p2, err2 = ttheader.DecodeFromBytes(ctx, gin)
 		}()
 		rl := p2.HeaderLen
 		if err2 != nil || pan2 {
@@ -454,6 +461,55 @@ func tthHostileCases(c *Ctx) []json.RawMessage {
 		add(TTHCase{F: (bl + pad) / 4, BLen: bl + pad, Body: body, Total: 50})
 		if rng.Intn(3) == 0 { // the same sections but the size field cuts into them
 			add(TTHCase{F: (bl+pad)/4 - 1, BLen: bl + pad, Body: body, Total: 50})
+		}
+	}
+	// inner string lengths that overrun the header by 1, 2, 3 bytes (the header ends the input exactly:
+	// nothing behind it but the end of the slice / a guard page), for the last string of every section kind
+	type lenAt struct{ off int }
+	build := func(parts [][]byte) (body []byte, lens []int) {
+		body = []byte{0, 0}
+		for _, p := range parts {
+			body = append(body, p...)
+		}
+		return
+	}
+	str2 := func(b []byte) []byte { return append([]byte{byte(len(b) >> 8), byte(len(b))}, b...) }
+	for n := 0; n < 9; n++ {
+		val := PatBytes(7, 0, n)
+		key := []byte("ky")
+		var bodies [][]byte
+		var lastLenOff []int
+		b1, _ := build([][]byte{{0x11}, str2(val)})
+		bodies, lastLenOff = append(bodies, b1), append(lastLenOff, 3)
+		b2, _ := build([][]byte{{0x01, 0, 1}, str2(key), str2(val)})
+		bodies, lastLenOff = append(bodies, b2), append(lastLenOff, 2+3+2+len(key))
+		b3, _ := build([][]byte{{0x10, 0, 1}, {0, 9}, str2(val)})
+		bodies, lastLenOff = append(bodies, b3), append(lastLenOff, 2+3+2)
+		b4, _ := build([][]byte{{0x01, 0, 1}, str2(val), str2(nil)}) // key is the overrunning string; empty value
+		bodies, lastLenOff = append(bodies, b4), append(lastLenOff, 2+3)
+		for bi, body := range bodies {
+			if len(body)%4 != 0 {
+				continue // only bodies that end exactly at a word boundary: no padding behind the string
+			}
+			for _, d := range []int{1, 2, 3, 4} {
+				m := append([]byte(nil), body...)
+				o := lastLenOff[bi]
+				l := int(m[o])<<8 | int(m[o+1])
+				if bi == 3 {
+					continue
+				}
+				l += d
+				m[o], m[o+1] = byte(l>>8), byte(l)
+				add(TTHCase{F: len(m) / 4, BLen: len(m), Body: hexOf(&SegBuf{b: m}), Total: 14 + len(m) - 4})
+				// and with a payload behind the header (bytes that must not leak into the maps)
+				fr := make([]byte, 14+len(m)+8)
+				binary.BigEndian.PutUint32(fr, uint32(len(fr)-4))
+				binary.BigEndian.PutUint16(fr[4:], 0x1000)
+				binary.BigEndian.PutUint16(fr[12:], uint16(len(m)/4))
+				copy(fr[14:], m)
+				copy(fr[14+len(m):], "PAYLOAD!")
+				add(TTHCase{Hex: hexOf(&SegBuf{b: fr})})
+			}
 		}
 	}
 	// truncation / perturbation of valid frames
